@@ -237,18 +237,34 @@ def build_harness(tags="verif", race=False, name=None):
 def harness(binpath, prop, mode, args=(), input=None, timeout=1800, env=None):
     p = run([binpath, prop, mode] + list(args), input=input, timeout=timeout, env=env)
     if p.returncode != 0:
-        raise RuntimeError("harness %s %s failed (%d): %s" % (prop, mode, p.returncode, p.stderr[-3000:]))
+        raise RuntimeError("harness %s %s failed (%d): %s ... %s" % (prop, mode, p.returncode, p.stderr[:700], p.stderr[-2300:]))
     return p.stdout
 
 
-def harness_parallel(binpath, prop, cases, shards=12, timeout=3000, env=None):
+def harness_parallel(binpath, prop, cases, shards=12, timeout=3000, env=None, crash_timeout=120):
     """run `<bin> <prop> run` over the cases split into shards, in parallel processes; returns the records in case order"""
     import concurrent.futures
     shards = max(1, min(shards, len(cases)))
     parts = [cases[i::shards] for i in range(shards)]
 
     def one(part):
-        return jsonl(harness(binpath, prop, "run", input="".join(json.dumps(c) + "\n" for c in part), timeout=timeout, env=env))
+        data = "".join(json.dumps(c) + "\n" for c in part)
+        try:
+            return jsonl(harness(binpath, prop, "run", input=data, timeout=timeout, env=env))
+        except (RuntimeError, subprocess.TimeoutExpired):
+            # the harness process died (a fatal Go error cannot be recovered) or hung: find the case by running them one by one
+            out = []
+            for c in part:
+                try:
+                    out += jsonl(harness(binpath, prop, "run", input=json.dumps(c) + "\n", timeout=crash_timeout, env=env))
+                except subprocess.TimeoutExpired:
+                    out.append({"id": c["id"], "crash": "no answer within %d s" % crash_timeout})
+                except RuntimeError as e:
+                    msg = str(e)
+                    kind = "fatal error: stack overflow" if "stack overflow" in msg or "goroutine stack exceeds" in msg else \
+                           ("fatal error: out of memory" if "out of memory" in msg else "the process died")
+                    out.append({"id": c["id"], "crash": kind, "detail": msg[-600:]})
+            return out
     with concurrent.futures.ThreadPoolExecutor(max_workers=shards) as ex:
         outs = list(ex.map(one, parts))
     byid = {}
